@@ -7,6 +7,15 @@ import registry
 VERIF = os.path.dirname(os.path.dirname(os.path.dirname(os.path.abspath(__file__))))
 
 REASONS = {
+    "C01": "delivery order / exactly-once / documented loss is a property of publisher.rs / subscriber.rs / sender.rs / "
+           "receiver.rs on a real `Service` (private super-trait, files, shm): not encodable; the connection-level "
+           "substitute (zero_copy_connection try_send/receive/release on an in-memory storage, buffer 1, borrow 1) was "
+           "built and does not fit the solver (44 M variables / 239 M clauses, out of memory at 48 GB) because every "
+           "queue behind a RelocatablePointer gets a symbolic offset; the queue components are decided under C03/C16",
+    "C02": "the conservation law lives in segment_state.rs / sender.rs / sample.rs of the iceoryx2 crate (crate-private, "
+           "needs a `Service`): not encodable; the connection-level substitute did not fit the solver (see C01); "
+           "what is decided elsewhere: pool allocator reuse only after deallocate (C15), used-chunk list vs set model "
+           "and queue conservation (C03)",
     "C04": "crash points range over system calls of real processes and the kernel's clean-up of locks/fds; the code "
            "between the FFI calls (node, service builder, file/shm storage, process_state) is file-, TOML- and "
            "format!-heavy whole-program code that does not fit CBMC, and a solver model of the POSIX file system would "
@@ -17,6 +26,10 @@ REASONS = {
     "C07": "ProcessMonitor verdicts are a decision tree over open/fstat/fcntl(F_GETLK) results of files manipulated by "
            "another process; soundness is a statement about kernel lock semantics across processes, outside any "
            "encoding of the real code within reach",
+    "C10": "the property is about ContainerState snapshots (update_state) racing writers; one get_state/update_state "
+           "round on capacity 1 already needs > 38 GB in CBMC (generation-counter loops over a RelocatablePointer "
+           "payload), so neither the sequential nor the scheduled snapshot harness fits; only add/remove/recover "
+           "without snapshots fits, which is not the property",
     "C17": "drop-order permutations over object graphs of nodes, services, ports and samples need the full port layer "
            "on a real `Service` (files, shm, sockets); not encodable",
     "C18": "trace equivalence of the C and Rust APIs over the full stack through extern \"C\" entry points; not "
